@@ -17,7 +17,7 @@ RULE = ("(1) for every built-in command of the CSV library set a valid base mode
         "wrong-fuzziness results, bad paths, unknown command, duplicate result); (2) the same faults at random positions of random "
         "models with sinks; (3) every producer x consumer pairing of built-in data commands; (4) unfaulted models must be accepted; "
         "distinct by (fault kind, command, parameter, variant) / (producer, consumer)")
-REQUIRED_COUNTERS = ["rejections_checked", "side_effect_free_rejections", "acceptances_checked", "pairings_checked", "exec_events_seen_in_valid_runs", "netcdf_model_cases", "api_built_models", "incremental_rejections_checked", "user_subclass_models", "shared_argument_programs", "valid_models_through_the_tool"]
+REQUIRED_COUNTERS = ["history_steps_checked", "rejections_checked", "side_effect_free_rejections", "acceptances_checked", "pairings_checked", "exec_events_seen_in_valid_runs", "netcdf_model_cases", "api_built_models", "incremental_rejections_checked", "user_subclass_models", "shared_argument_programs", "valid_models_through_the_tool"]
 ASSUMPTIONS = ["a list or tuple given to a String/Path parameter is don't-care (string cleaning stringifies by design)",
                "value-dependent run-time errors (InvalidThresholds, DuplicateRawValues, ...) are not acceptance errors",
                "the acceptance rule is restated from the declarations (inputs/required/output/is_fuzzy), not from running clean()"]
@@ -168,6 +168,10 @@ def cases(ctx):
             if ctx.mine(k) and (not ctx.quick or (k // ctx.nshards) % 4 == 0):
                 yield {"kind": "pair", "producer": p, "consumer": c, "rseed": k}
             k += 1
+    # (3b) histories in one process and one directory: the input file disappears and comes back between programs; a program
+    # that failed at run time for an outside reason is run again after the reason was removed
+    for i in range(ctx.n(40, 2000)):
+        yield {"kind": "history", "model": models.gen_model(rng, n_ops=rng.randint(1, 6), sinks=True, metadata=rng.random() < 0.3), "variant": i % 3, "rseed": rng.randrange(10 ** 9)}
     # (4) valid models are accepted
     for i in range(ctx.n(300, 15000)):
         yield {"kind": "valid", "model": models.gen_model(rng, n_ops=rng.randint(1, 10), sinks=True, metadata=rng.random() < 0.3, libs="nc" if i % 4 == 0 else "csv"),
@@ -204,6 +208,92 @@ def _side_effects(log, changed, prog):
     writes = [(e["op"], os.path.basename(e["path"])) for e in log if e["k"] == "fs_write"]
     finished = [n for n, c in prog.commands.items() if c.is_finished] if prog is not None else []
     return execs, writes, changed, finished
+
+
+def run_history(ctx, case):
+    """Acceptance depends on the model and the files as they are *now*, not on what earlier programs of the process saw."""
+    model = case["model"]
+    d = ctx.scratch()
+    path = models.write_table(model["table"], d)
+    text, _ = models.to_text(model)
+    libs = models.model_libs(model)
+    good = open(path, "rb").read()
+    reads = [c for c in model["commands"] if c["cmd"] == "EEMSRead"]
+    ctx.feature(("history", case["variant"], len(model["commands"])))
+    if case["variant"] in (0, 1):
+        # variant 0: accepted, file removed -> rejected before anything runs, file back -> accepted again
+        # variant 1: the same, starting with the file absent
+        order = ["present", "absent", "present"] if case["variant"] == 0 else ["absent", "present", "absent"]
+        for step, state in enumerate(order):
+            if state == "present":
+                with open(path, "wb") as f:
+                    f.write(good)
+            elif os.path.exists(path):
+                os.remove(path)
+            err, prog, log, changed = _run_monitored(ctx, text, d, libs=libs)
+            ctx.count("history_steps_checked")
+            execs, writes, changed, finished = _side_effects(log, changed, prog)
+            name = type(err).__name__ if err is not None else None
+            if state == "present":
+                ctx.count("acceptances_checked")
+                if name in ACCEPTANCE_ERRORS or name == "RecursiveModelStructure":
+                    ctx.fail("history:valid-model-rejected-after-earlier-programs:%s" % name, {"step": step, "states": order, "error": str(err)[:300], "text": text[:800]})
+                    return
+                if err is not None:
+                    ctx.dontcare("history: valid model raises run-time %s" % name)
+                    return
+            else:
+                ctx.count("rejections_checked")
+                if err is None:
+                    ctx.fail("history:missing-input-file:accepted", {"step": step, "states": order, "executed": execs[:6], "text": text[:800]})
+                    return
+                if name != "PathDoesNotExist":
+                    inner = type(getattr(err, "exc", None)).__name__ if name == "UnexpectedError" else None
+                    ctx.fail("history:missing-input-file:rejected-with-%s" % (name + ("/" + inner if inner else "")), {"step": step, "states": order, "error": str(err)[:300], "executed_before": execs[:6]})
+                    return
+                if execs or writes or changed or finished:
+                    ctx.fail("history:missing-input-file:side-effect-before-rejection", {"step": step, "states": order, "executed": execs[:6], "fs_writes": writes[:4], "changed_files": changed[:4]})
+                    return
+                ctx.count("side_effect_free_rejections")
+        return
+    # variant 2: a run fails inside a reader because of the file's content; the file is repaired; the same program is run again
+    col = reads[case["rseed"] % len(reads)]["args"]["InFieldName"]
+    t2 = {k: v for k, v in model["table"].items()}
+    t2["cols"] = {(k + "_renamed" if k == col else k): v for k, v in model["table"]["cols"].items()}
+    models.write_table(t2, d)
+    from mpilot.program import Program
+    try:
+        prog = Program.from_source(text, libraries=libs, working_dir=d)
+    except Exception as e:
+        ctx.dontcare("history: load raises %s" % type(e).__name__)
+        return
+    first = None
+    try:
+        prog.run()
+    except Exception as e:
+        first = e
+    if first is None:
+        ctx.note_inconclusive("history: the damaged table did not make the run fail")
+        return
+    with open(path, "wb") as f:
+        f.write(good)
+    ctx.count("history_steps_checked")
+    ctx.count("acceptances_checked")
+    second = None
+    try:
+        prog.run()
+    except Exception as e:
+        second = e
+    name = type(second).__name__ if second is not None else None
+    if name in ACCEPTANCE_ERRORS or name == "RecursiveModelStructure":
+        ctx.fail("history:valid-model-rejected-when-run-again-after-a-repaired-failure:%s" % name, {"first_error": type(first).__name__, "error": str(second)[:300], "text": text[:800]})
+    elif second is not None:
+        # the same model from a fresh load decides whether this is the model's own run-time behaviour
+        try:
+            Program.from_source(text, libraries=libs, working_dir=d).run()
+            ctx.fail("history:run-again-after-a-repaired-failure-raises-%s" % name, {"first_error": type(first).__name__, "error": str(second)[:300], "text": text[:800]})
+        except Exception:
+            ctx.dontcare("history: valid model raises run-time %s" % name)
 
 
 def run_v2dup(ctx, case):
@@ -371,6 +461,8 @@ def run_case(ctx, case):
         return run_incremental(ctx, case)
     if kind == "v2dup":
         return run_v2dup(ctx, case)
+    if kind == "history":
+        return run_history(ctx, case)
     d = ctx.scratch()
     model = case["model"]
     if case.get("shuffle"):
@@ -382,8 +474,15 @@ def run_case(ctx, case):
         return run_relpath(ctx, case, model, d)
     if kind == "restricted":
         return run_restricted(ctx, case, model, d)
+    if kind == "valid" and case.get("rseed", 0) % 5 == 2:
+        # an empty metadata list is a legal (empty) metadata value
+        import copy
+        model = copy.deepcopy(model)
+        for c in model["commands"][::2]:
+            c["args"]["Metadata"] = []
+        ctx.count("empty_metadata_models")
     text, _ = models.to_text(model)
-    api = kind == "fault" and (case.get("rseed", 0) % 4 == 1 or case["expect"].get("variant") in ("none", "none-item")) and case["expect"]["fault"] not in ("unknown-command",)
+    api = (kind == "valid" and case.get("rseed", 0) % 10 == 7) or kind == "fault" and (case.get("rseed", 0) % 4 == 1 or case["expect"].get("variant") in ("none", "none-item")) and case["expect"]["fault"] not in ("unknown-command",)
     if api:
         ctx.count("api_built_models")
     err, prog, log, changed = _run_monitored(ctx, text, d, libs=models.model_libs(model), api_model=model if api else None)
